@@ -44,6 +44,8 @@ func VerifC12_new_round() {
 	const oldID, otherID = uint64(4), uint64(9)
 	d := vDispute(oldID, hash[:])
 	d.DisputeCategory, d.DisputeStatus, d.Open, d.DisputeEndTime, d.DisputeRound = cat, status, open, end, round
+	pending := ndBool("pendingExecution") // a tallied round waits for execution until its deadline
+	d.PendingExecution = pending
 	d.SlashAmount, d.BurnAmount, d.FeeTotal, d.DisputeFee = S, burn0, fee0, S
 	d.InitialEvidence = report
 	d.PrevDisputeIds = []uint64{2, oldID}[2-int(min64(round, 2)):]
@@ -74,7 +76,7 @@ func VerifC12_new_round() {
 	if err != nil {
 		ndReach("refused")
 		ndAssert(nerr != nil, "refused-proposal-opens-no-round")
-		ndAssert(after.Open == open && after.DisputeStatus == status && after.DisputeRound == round && after.FeeTotal.Equal(fee0) && after.BurnAmount.Equal(burn0), "refused-proposal-leaves-the-dispute-as-it-was")
+		ndAssert(after.Open == open && after.PendingExecution == pending && after.DisputeStatus == status && after.DisputeRound == round && after.FeeTotal.Equal(fee0) && after.BurnAmount.Equal(burn0), "refused-proposal-leaves-the-dispute-as-it-was")
 		ndAssert(bank.get(vbAcc(sender)).Equal(bal) && bank.modBal("dispute").IsZero(), "refused-proposal-takes-no-fee")
 		ndAssert(rk.nEscrow == 0 && rk.nJail == 0 && ok.nFlag == 0, "refused-proposal-slashes-nobody")
 		return
@@ -85,7 +87,7 @@ func VerifC12_new_round() {
 	ndAssert(!end.Before(now), "a-new-round-starts-only-before-the-deadline")
 	ndAssert(offered.GTE(roundFee), "the-offer-covers-the-round-fee")
 	ndAssert(bank.get(vbAcc(sender)).Equal(bal.Sub(roundFee)) && bank.modBal("dispute").Equal(roundFee), "the-proposer-pays-exactly-the-doubling-round-fee")
-	ndAssert(!after.Open && !after.PendingExecution && after.DisputeStatus == types.Unresolved && after.DisputeRound == round, "the-old-round-is-closed-and-otherwise-unchanged")
+	ndAssert(!after.Open && !after.PendingExecution && after.DisputeStatus == types.Unresolved && after.DisputeRound == round, "the-old-round-is-closed-no-longer-awaits-execution-and-is-otherwise-unchanged")
 	ndAssert(nerr == nil, "the-new-round-gets-the-next-free-id")
 	if nerr == nil {
 		ndAssert(nd.DisputeRound == round+1 && nd.DisputeStatus == types.Voting && nd.Open, "new-round-is-in-voting")
